@@ -131,6 +131,41 @@ def main():
                 log = noise(r, others, tmp)
                 out["results"][path] = generate_all(path, tmp)
                 out.setdefault("histories", {})[path] = log
+        elif job["mode"] == "address-reuse":
+            # one long-lived process: the schemas take turns, each parsed tree is dropped and collected
+            # before the next is parsed, so trees land on addresses earlier trees had (anything a generator
+            # remembers per id(tree) then meets another schema).  The LAST result per (schema, generator) is kept
+            # together with any earlier result that differs from it.
+            import gc
+
+            seen = set()
+            reused = 0
+            rounds = job.get("rounds", 6)
+            for rnd in range(rounds):
+                for path in job["schemas"]:
+                    for g in GENS:
+                        res = parse(path)
+                        if res.is_err():
+                            m = {"<error>": repr(res.err())[:200]}
+                        else:
+                            fcp = res.unwrap()
+                            if id(fcp) in seen:
+                                reused += 1
+                            seen.add(id(fcp))
+                            try:
+                                m = file_map(g, fcp, tmp)[0]
+                            except Exception as e:
+                                m = {"<exception>": "%s: %s" % (type(e).__name__, str(e)[:200])}
+                            del fcp
+                        del res
+                        gc.collect()
+                        per = out["results"].setdefault(path, {})
+                        if g in per and per[g] != m:
+                            per[g + "/differs-in-round-%d" % rnd] = m
+                        else:
+                            per[g] = m
+            out["trees_at_a_reused_address"] = reused
+            out["trees"] = len(job["schemas"]) * len(GENS) * rounds
         elif job["mode"] == "reuse":
             # same tree object: twice the same generator, and cpp -> dbc -> can_c -> cpp
             for path in job["schemas"]:
